@@ -406,8 +406,24 @@ impl<'tcx> Cx<'tcx> {
         ];
         if let mir::Const::Unevaluated(uv, _) = c.const_ {
             v.push(("def", J::s(self.path(uv.def))));
-            if uv.promoted.is_some() {
+            if let Some(pi) = uv.promoted {
                 v.push(("promoted", J::Bool(true)));
+                // render the promoted body's statements so that rules can see what `&CONST` refers to
+                if uv.def.is_local() || tcx.is_mir_available(uv.def) {
+                    let proms = tcx.promoted_mir(uv.def);
+                    if pi.as_usize() < proms.len() {
+                        let pb = &proms[pi];
+                        let mut parts: Vec<String> = vec![];
+                        for data in pb.basic_blocks.iter() {
+                            for st in data.statements.iter() {
+                                if let StatementKind::Assign(b) = &st.kind {
+                                    parts.push(format!("{:?} = {:?}", b.0, b.1));
+                                }
+                            }
+                        }
+                        v.push(("ptext", J::s(parts.join("; "))));
+                    }
+                }
             }
         }
         if let ty::FnDef(d, _) = ty.kind() {
